@@ -1,4 +1,49 @@
-From Coq Require Import ZArith.
-From Tulz Require Import ResourceModel.
-Theorem placeholder_C12 : 1 = 1. Proof. reflexivity. Qed.
-Print Assumptions placeholder_C12.
+(* Properties_C12.v — rwp::Resource lets readers share: no reader waits without a writer.
+   Only statements, each closed by [exact <lemma of ResourceProofs>], and Print Assumptions. *)
+From Coq Require Import List ZArith Bool Lia.
+From Tulz Require Import Common ResourceModel ResourceInv ResourceLemmas ResourceProofs ResourceOrder.
+Import ListNotations.
+Local Open Scope Z_scope.
+
+(* a read request is granted without waiting whenever no thread holds or waits for the write
+   lock — in every reachable state, whatever happened before *)
+Theorem C12_reader_fast_path : forall n ls t s',
+  no_writer (run true (init n) ls) ->
+  step true (run true (init n) ls) (Req t Rd) = Some s' ->
+  nth_error (thr s') t = Some (Holding Rd).
+Proof. exact reader_fast_path. Qed.
+Print Assumptions C12_reader_fast_path.
+
+(* any number of readers can be inside at the same time *)
+Theorem C12_all_readers_inside : forall n,
+  Forall (fun st => st = Holding Rd) (thr (run true (init n) (map (fun t => Req t Rd) (seq 0 n)))).
+Proof. exact all_readers_inside. Qed.
+Print Assumptions C12_all_readers_inside.
+
+(* readers that queued up consecutively (no parked writer between them in arrival order) are
+   admitted together: in every reachable state either both are admitted or neither is *)
+Theorem C12_consecutive_readers_together : forall n ls ta tb ia ib na nb a b,
+  nth_error (thr (run true (init n) ls)) ta = Some (Parked Rd ia na a) ->
+  nth_error (thr (run true (init n) ls)) tb = Some (Parked Rd ib nb b) ->
+  (a < b)%nat ->
+  (forall tw iw nw w, nth_error (thr (run true (init n) ls)) tw = Some (Parked Wr iw nw w) -> ~ (a < w < b)%nat) ->
+  (ia < ubound (rs (run true (init n) ls)) <-> ib < ubound (rs (run true (init n) ls))).
+Proof. exact consecutive_readers_together. Qed.
+Print Assumptions C12_consecutive_readers_together.
+
+(* an admitted request can always enter without anybody leaving: at most a pending
+   notify_all and its own wake-up are needed — so readers of one batch that wait for each
+   other inside the critical section cannot deadlock *)
+Theorem C12_admitted_can_enter : forall n ls t op id nt a,
+  nth_error (thr (run true (init n) ls)) t = Some (Parked op id nt a) ->
+  id < ubound (rs (run true (init n) ls)) ->
+  exists ls' s', exec true (run true (init n) ls) ls' = Some s' /\
+                 Forall (fun l => match l with Rel _ => False | _ => True end) ls' /\
+                 nth_error (thr s') t = Some (Holding op).
+Proof. exact admitted_can_enter. Qed.
+Print Assumptions C12_admitted_can_enter.
+
+Example C12_nonvacuous :
+  map tstate_z (thr (run true (init 4) [Req 0 Wr; Req 1 Rd; Req 2 Rd; Req 3 Rd; Rel 0]))
+  = [5; 1; 1; 1] /\ activeCount (rs (run true (init 4) [Req 0 Wr; Req 1 Rd; Req 2 Rd; Req 3 Rd; Rel 0])) = 3.
+Proof. vm_compute. split; reflexivity. Qed.
